@@ -95,6 +95,29 @@ TrHeader ==
      /\ UNCHANGED << buf, prov, memo, fromdec, provdec >>
      /\ pk' = IF e.post.k = "SAME" THEN pk ELSE [pk EXCEPT ![e.h] = e.post]
      /\ Step(Verdict(G, Modified(e)), {"header"}, pk[e.h].k)
+\* Len() accessor (C05) and ReceiverEstimatedMaximumBitrate.MarshalTo (C03, C05, C08)
+TrLen ==
+  /\ e.op = "lenacc"
+  /\ LET G(D) == IF pk[e.h].k = "NONE" THEN {"TRACE:call_on_missing_packet"}
+                 ELSE IF WFAny(D, pk[e.h]) /\ e.out # SizeAny(pk[e.h]) THEN {"C05:len_accessor"} ELSE {} IN
+     /\ UNCHANGED << buf, prov, memo, fromdec, provdec >>
+     /\ pk' = IF e.post.k = "SAME" THEN pk ELSE [pk EXCEPT ![e.h] = e.post]
+     /\ Step(Verdict(G, Modified(e)), {"size"}, pk[e.h].k)
+TrMarshalTo ==
+  /\ e.op = "marshalto"
+  /\ LET v == pk[e.h]
+         G(D) == IF v.k # "REMB" THEN {"TRACE:call_on_missing_packet"}
+                 ELSE IF e.panic THEN {"PANIC:marshalto"}
+                 ELSE (IF WF(D, v) /\ e.size >= Size(v) /\ (~e.ok \/ e.n # Size(v) \/ SubSeq(e.out, 1, Size(v)) # EncPacket(D, v))
+                       THEN {"C03:marshalto_bytes"} ELSE {})
+                      \cup (IF WF(D, v) /\ e.ok /\ e.size > Size(v) /\ (\E i \in (Size(v) + 1)..e.size : e.out[i] # 238)
+                            THEN {"C05:marshalto_wrote_beyond_size"} ELSE {})
+                      \cup (IF e.size < SizeREMB(v) /\ e.ok THEN {"C08:marshalto_short_buffer_accepted"} ELSE {})
+                      \cup (IF Over(v) /\ e.ok THEN {"C08:over_limit_accepted"} ELSE {}) IN
+     /\ UNCHANGED << buf, prov, memo, fromdec, provdec >>
+     /\ pk' = IF e.post.k = "SAME" THEN pk ELSE [pk EXCEPT ![e.h] = e.post]
+     /\ Step(Verdict(G, Modified(e)), {"marshal_ok"}, pk[e.h].k)
+
 TrString ==
   /\ e.op = "string"
   /\ LET res == [panic |-> e.panic, out |-> e.out]
@@ -207,7 +230,7 @@ TrUnitEnc ==
 TraceNext ==
   /\ l <= Len(Trace)
   /\ \/ TrBuild \/ TrSetBuf \/ TrReset \/ TrMarshal \/ TrSize \/ TrDest \/ TrHeader \/ TrString
-     \/ TrUnmarshal \/ TrDatagram \/ TrUnitDec \/ TrUnitEnc \/ TrValidate \/ TrCname \/ TrNack \/ TrRemb \/ TrTables
+     \/ TrUnmarshal \/ TrDatagram \/ TrUnitDec \/ TrUnitEnc \/ TrValidate \/ TrCname \/ TrNack \/ TrRemb \/ TrTables \/ TrLen \/ TrMarshalTo
 
 TraceSpec == TraceInit /\ [][TraceNext]_tvars
 
